@@ -341,59 +341,81 @@ def rule_cache(ctx):
 
 
 def rule_forms(ctx):
+  """Multiplier families of ExtendedBatchDL, read from what is appended (value) and over which range (loop iterable) - independent of names."""
   R = "R-C10-FORMS"
   repo = ctx.repo
   f, w = walk(repo, "ExtendedBatchDL")
-  fn = f.node
-  bits_ok = any(isinstance(s, ast.Assign) and norm(s) == "bits = self.n.bit_length()" for s in fn.body)
-  loops = [s for s in fn.body if isinstance(s, ast.For)]
+  BITS = sym.mk("bitlen", sym.mk("attr", SELF, "n"))
   fam1 = fam2 = False
   d1 = d2 = ""
-  for lp in loops:
-    apps = [x for x in ast.walk(lp) if isinstance(x, ast.Call) and isinstance(x.func, ast.Attribute) and x.func.attr == "append"
-            and isinstance(x.func.value, ast.Name) and x.func.value.id == "multipliers"]
-    if len(apps) != 1 or not isinstance(lp.iter, ast.Call) or ast.unparse(lp.iter.func) != "range":
+  seen = set()
+  for e in w.events:
+    if not (e.kind == "mutate" and e.data["method"] == "append" and e.data["args"]) or id(e.node) in seen:
       continue
-    tv = ast.unparse(lp.target)
-    arg = ast.unparse(apps[0].args[0]).replace(" ", "")
-    rng = [fold.try_fold(a, {"bits": fold.Sym("bits"), "quad_words": fold.Sym("Q")}) for a in lp.iter.args]
-    if arg in ("2**%s" % tv, "1<<%s" % tv):
-      # shifts: need start <= 0, step dividing 8, stop >= bits - 31
-      if len(rng) == 3 and rng[0] == 0 and isinstance(rng[2], int) and rng[2] > 0 and 8 % rng[2] == 0 and isinstance(rng[1], fold.Sym) \
-         and rng[1].name == "bits" and rng[1].a == 1 and rng[1].b >= -31:
+    seen.add(id(e.node))
+    v = e.data["args"][0]
+    if isinstance(v, (Seq, Const, tuple)):
+      continue
+    v = as_poly(v)
+    loops_of = [i_ for i_ in w.loop_info.values() if any(x is e.node for x in ast.walk(i_["node"])) and i_["visits"]]
+    if len(loops_of) != 1 or isinstance(loops_of[0]["visits"][0]["iter"], Seq):
+      continue
+    vis = loops_of[0]["visits"][0]
+    ra = as_poly(vis["iter"]).as_atom()
+    if ra is None or ra.kind != "range":
+      continue
+    a_ = list(ra.args)
+    start = Poly.const(0) if len(a_) == 1 else as_poly(a_[0])
+    stop = as_poly(a_[0]) if len(a_) == 1 else as_poly(a_[1])
+    step = as_poly(a_[2]) if len(a_) == 3 else Poly.const(1)
+    k = as_poly(vis["k"])
+    var = start + k * step
+    va = v.as_atom()
+    if va is not None and va.kind == "pow" and as_poly(va.args[0]).as_int() == 2 and as_poly(va.args[1]) == var:
+      # shifts j = start, start + step, ... < stop: need 0, 8, 16, ..., bits - 32 among them
+      st_i, sp_i = start.as_int(), step.as_int()
+      slack = (stop - BITS).as_int()
+      if st_i == 0 and sp_i is not None and sp_i > 0 and 8 % sp_i == 0 and slack is not None and slack >= -31:
         fam1 = True
       else:
-        d1 = "shift family range%s does not cover j = 0, 8, ..., bits - 32" % (tuple(map(repr, rng)),)
-    elif is_word_repetition(apps[0].args[0], tv):
-      if len(rng) == 2 and rng[0] == 2 and isinstance(rng[1], fold.Sym) and rng[1].name == "Q" and rng[1].a == 1 and rng[1].b >= 1:
-        fam2 = True
-      else:
-        d2 = "repetition family range%s does not cover 2 .. bits // 32 words" % (tuple(map(repr, rng)),)
-  qw = any(isinstance(s, ast.Assign) and norm(s) in ("quad_words = self.n.bit_length() // 32", "quad_words = bits // 32") for s in fn.body)
-  ctx.record(R, f.where, "multipliers 2^j, j = 0, 8, ..., bits - 32", fam1 and bits_ok, "32-bit values shifted by whole bytes" if fam1 and bits_ok else (d1 or "shift family not found"))
-  ctx.record(R, f.where, "multipliers sum_{i<w} 2^(32 i), 2 <= w <= bits // 32", fam2 and qw, "32-bit word repeated w times" if fam2 and qw else (d2 or "repetition family not found"))
+        d1 = "shift family range(%r, %r, %r) does not cover j = 0, 8, ..., bits - 32" % (start, stop, step)
+    elif va is not None and va.kind == "sum":
+      m_ = as_poly(va.args[0]).as_atom()
+      good = False
+      if m_ is not None and m_.kind == "map":
+        elt, bv, src = m_.args
+        bvp = Poly.atom(bv) if not isinstance(bv, Poly) else bv
+        sa = as_poly(src).as_atom()
+        if as_poly(elt) == sym.mk("pow", Poly.const(2), bvp * 32) and sa is not None and sa.kind == "range" and len(sa.args) == 1 and as_poly(sa.args[0]) == var:
+          good = True
+      if good:
+        Q = sym.mk("fdiv", BITS, Poly.const(32))
+        if start.as_int() == 2 and step.as_int() == 1 and (stop - Q).as_int() is not None and (stop - Q).as_int() >= 1:
+          fam2 = True
+        else:
+          d2 = "repetition family range(%r, %r) does not cover 2 .. bits // 32 words" % (start, stop)
+  ctx.record(R, f.where, "multipliers 2^j, j = 0, 8, ..., bits - 32", fam1, "32-bit values shifted by whole bytes" if fam1 else (d1 or "shift family not found"))
+  ctx.record(R, f.where, "multipliers sum_{i<w} 2^(32 i), 2 <= w <= bits // 32", fam2, "32-bit word repeated w times" if fam2 else (d2 or "repetition family not found"))
   calls = [e for e in w.events if e.kind == "call" and e.data["name"] == "meth:BatchDL"]
   okb = bool(calls) and all(len(e.data["args"]) > 1 and (as_poly(e.data["args"][1]).as_int() or 0) >= 2 ** 32 for e in calls)
   ctx.record(R, f.where, "search bound >= 2^32", okb, "BatchDL(all_points, 2**32)" if okb else "search bound below 2^32")
   exits = any(kind in ("break", "return") for info in w.loop_info.values() for kind, _, _, _, _ in info["body_paths"])
-  alloc = [e for e in w.events if e.kind == "assign" and e.data["name"] == "all_points"]
-  oka = bool(alloc) and all("len(param('points'))" in repr(as_poly(e.data["value"])) and "multipliers" in repr(as_poly(e.data["value"])) for e in alloc)
-  ctx.record(R, f.where, "every (multiplier, point) pair enumerated", not exits and oka, "len(multipliers) * num_points slots, nested loops without exits" if not exits and oka else
+  # the list searched has one slot per (multiplier, point): its allocation is [None] * (len(multipliers) * len(points)) in either order
+  points = P("param", [q for q in f.params() if q != "self"][0])
+  oka = False
+  for info in w.loop_info.values():
+    for vis in info["visits"]:
+      for nm, pv in vis["pre_env"].items():
+        if pv is None or isinstance(pv, (Seq, Const, tuple)):
+          continue
+        pa = as_poly(pv).as_atom()
+        if pa is not None and pa.kind == "listrep" and len(pa.args) == 2:
+          size = as_poly(pa.args[1])
+          lens = [a for a in size.atoms() if a.kind == "len"]
+          if len(lens) == 2 and (size - Poly.atom(lens[0]) * Poly.atom(lens[1])).is_zero() and any(as_poly(a.args[0]) == points for a in lens):
+            oka = True
+  ctx.record(R, f.where, "every (multiplier, point) pair enumerated", not exits and oka, "len(multipliers) * len(points) slots, nested loops without exits" if not exits and oka else
              "pair enumeration incomplete")
-
-
-def is_word_repetition(node, tv):
-  """sum(2 ** (32 * i) for i in range(<tv>))"""
-  if not (isinstance(node, ast.Call) and isinstance(node.func, ast.Name) and node.func.id == "sum" and len(node.args) == 1):
-    return False
-  g = node.args[0]
-  if not isinstance(g, (ast.GeneratorExp, ast.ListComp)) or len(g.generators) != 1 or g.generators[0].ifs:
-    return False
-  gen = g.generators[0]
-  if not (isinstance(gen.target, ast.Name) and ast.unparse(gen.iter) == "range(%s)" % tv):
-    return False
-  i = gen.target.id
-  return ast.unparse(g.elt).replace(" ", "") in ("2**(32*%s)" % i, "2**(%s*32)" % i, "1<<32*%s" % i, "1<<(32*%s)" % i)
 
 
 def rule_dup(ctx):
